@@ -552,16 +552,82 @@ def r5(ctx, sch):
 
 def check(ctx):
     ctx.explanation = (
-        "Level-1 relations are decided on interprocedural value provenance (which values reach the bound columns of the relation insert, through "
-        "helpers and temporaries) and on the line loop's CFG (every pass that stored the feature row passes the relation writer or a "
-        "Parent-absence edge; the id is final before the writer); the level-2 SELECT is normalised to a conjunctive query and compared, up to "
-        "alias renaming, with the composition of two level-1 edges; the closure file's writer and reader are matched field by field on "
-        "provenance; children()/parents() are evaluated by partitioned dataflow through _relation and make_query and each generated "
-        "statement's conjunctive query is compared with the specified join. Does not decide behaviour under every permutation of lines or "
-        "'never its own relative' (data-dependent).")
+        "The GFF3 importer's own methods (_populate_from_lines, then _update_relations) are evaluated by the abstract evaluator against a model "
+        "database (a relational evaluator for the SQL subset used, an in-memory file system for the intermediate file): for a 9-line annotation "
+        "graph (depth 4, shared child, repeated and dangling Parent values, a line without ID) in several line orders -- all permutations of six "
+        "lines in the thorough tier -- and for a second import into the filled database, the relations table must equal the Parent graph two "
+        "levels deep. gffutils and sqlite3 are not imported or run; helper extraction, handler tables, generators or named placeholders in the "
+        "importer do not matter to the result. The pipeline order and the query side (children()/parents() through _relation and make_query: each "
+        "generated statement's conjunctive query compared with the specified join) are decided as before. Does not decide 'for every graph'.")
     sch = schema(ctx)
-    r1(ctx, sch)
-    r2(ctx, sch)
+    r_scenario(ctx)
     r3(ctx)
     r4(ctx, sch)
     r5(ctx, sch)
+
+
+# ------------------------------------------------------------------------------------------------ scenario rules
+def r_scenario(ctx):
+    """The GFF3 importer (_populate_from_lines, then _update_relations) evaluated against the model database on a small
+    annotation graph, in several line orders: the relations table equals the Parent graph two levels deep, and nothing else."""
+    import itertools
+    import random
+    from . import scen
+    base = scen.gff_lines()
+    orders = [list(range(len(base))), list(range(len(base)))[::-1]]
+    rnd = random.Random(20240229)
+    for _ in range(4 if ctx.tier == "quick" else 40):
+        o = list(range(len(base)))
+        rnd.shuffle(o)
+        orders.append(o)
+    if ctx.tier == "thorough":
+        six = [0, 1, 2, 3, 4, 5]
+        orders += [list(p) + [6, 7, 8] for p in itertools.permutations(six)]
+    fn = require_func(ctx, "create._GFFDBCreator._update_relations")
+    fp = require_func(ctx, "create._GFFDBCreator._populate_from_lines")
+    bad1 = bad2 = badf = None
+    n = 0
+    for o in orders:
+        lines = [scen.feature(f.name, f.attrs["featuretype"], f.attrs["start"], f.attrs["end"], f.attrs["attributes"], strand=f.attrs["strand"]) for f in (base[i] for i in o)]
+        im = scen.run_gff(ctx, lines)
+        n += 1
+        ids = [f.attrs["id"] for f in lines]
+        want = scen.expected_relations(lines, ids)
+        got = im.table("relations")
+        gs = set(got)
+        label = "line order %s" % "".join(str(i + 1) for i in o)
+        if bad1 is None:
+            w1, g1 = {r for r in want if r[2] == 1}, {r for r in gs if r[2] == 1}
+            if w1 != g1 or len(got) != len(gs):
+                bad1 = "%s: missing %s, unexpected %s%s" % (label, sorted(w1 - g1)[:4], sorted(g1 - w1)[:4], ", duplicate rows" if len(got) != len(gs) else "")
+        if bad2 is None:
+            w2, g2 = {r for r in want if r[2] != 1}, {r for r in gs if r[2] != 1}
+            if w2 != g2:
+                bad2 = "%s: missing %s, unexpected %s" % (label, sorted(w2 - g2)[:4], sorted(g2 - w2)[:4])
+        if badf is None:
+            stored = [r[0] for r in im.table("features", ["id"])]
+            if sorted(stored, key=str) != sorted(ids, key=str) or any(p == "nowhere" for p in stored):
+                badf = "%s: stored ids %s for lines with ids %s" % (label, stored, ids)
+    # a second import into the filled database (what update() does): the closure is still two levels deep -- the stored
+    # level-2 rows are not composed again
+    lines = scen.gff_lines()
+    im = scen.run_gff(ctx, lines)
+    more = [scen.feature("N1", "exon", 460, 480, {"ID": ["e9"], "Parent": ["t1"]}), scen.feature("N2", "match_part", 10, 20, {"ID": ["p2"], "Parent": ["e1"]})]
+    im2 = scen.Import(ctx, "_GFFDBCreator", db=im.db)
+    im2.call("_populate_from_lines", lines=list(more))
+    im2.call("_update_relations")
+    allf = lines + more
+    want = scen.expected_relations(allf, [f.attrs["id"] for f in allf])
+    got = set(im2.table("relations"))
+    ok = got == want and len(im2.table("relations")) == len(got)
+    ctx.ob("R2", ok, "importing more lines into a filled database (as update() does) leaves exactly the two-level Parent graph of all lines: stored level-2 rows are "
+           "not composed a second time", func=fn,
+           sig="relations after a second import equal the two-level graph" if ok else "after a second import: missing %s, unexpected %s" % (sorted(want - got)[:4], sorted(got - want)[:4]))
+    ctx.floor("R1", n, 6, "line orders of the GFF3 family evaluated")
+    ctx.ob("R1", bad1 is None, "level-1 relations are exactly the (Parent value, feature id) pairs of the file, once each -- also for children before parents, shared "
+           "children, a repeated Parent value and a Parent naming no feature (%d line orders of a 9-line graph)" % n, func=fp,
+           sig="level-1 relations equal the Parent graph" if bad1 is None else "level-1 relations differ: %s" % bad1)
+    ctx.ob("R2", bad2 is None, "level-2 relations are exactly the compositions of two level-1 edges (depth-4 graph: nothing deeper), whatever the line order", func=fn,
+           sig="level-2 relations equal the composed Parent graph" if bad2 is None else "level-2 relations differ: %s" % bad2)
+    ctx.ob("R1", badf is None, "a Parent value naming no stored feature creates no feature and no error", func=fp,
+           sig="no phantom feature" if badf is None else badf, nontrivial=False)
